@@ -8,7 +8,18 @@ information_schema.tables/columns/views/databases, DESCRIBE TABLE/VIEW, SHOW TAB
 schema scope, TERSE), SHOW PRIMARY KEYS and the description of SELECT *, all compared with a dict model updated from
 the operations, and with each other.
 
-Not demanded: created_on and owner columns; rows of information_schema.tables that belong to INFORMATION_SCHEMA itself
+The histories also move the session context (USE SCHEMA / USE DATABASE, in the same and into another database, and back):
+unqualified names of the operations and of the reporters resolve against the model's current database / schema, and once
+a history contains a USE the reporters that name no database (SHOW TABLES|OBJECTS IN DATABASE, IN SCHEMA <unqualified>,
+SHOW SCHEMAS, SHOW PRIMARY KEYS, DESCRIBE <unqualified>) are asked on a cursor made just now, on the cursor that executed
+the history, on a cursor idle since connect, on a cursor made right after the first USE (stepwise) and from a second
+connection - all must describe the then-current database. Table comments are replaced through COMMENT ON and ALTER .. SET
+COMMENT by every member of the comment alphabet: '' (falsy), a value equal to the old one, fresh values, one with a quote.
+A statement that raises declares nothing: the model follows acceptance (expand() reports the statement once).
+
+Not demanded: whether an empty comment reads back as '' or NULL; views while the current schema is not the one they were
+created in, and USE while a view exists (fakesnow resolves a view's body at query time against the current schema - seen,
+outside this property); created_on and owner columns; rows of information_schema.tables that belong to INFORMATION_SCHEMA itself
 (except that none may be a fakesnow-internal `_fs_` object); numeric precision of FLOAT; whether CLONE copies the
 comment; internal_size in description.
 """
@@ -662,7 +673,9 @@ def run(ctx: core.Ctx):
         "BFS over DDL histories from the written-out operation alphabet (enabledness from the model) up to the depth bound, plus "
         "explicitly listed deeper name-collision histories; states deduplicated on (raw-DuckDB catalog incl. fakesnow side "
         "tables, model state); the full reporting sweep (information_schema x4, DESCRIBE, SHOW x10+, description) is run once per "
-        "distinct state, and every maximal history is run once more in one session with the sweep after every step; "
+        "distinct state, and every maximal history is run once more in one session with the sweep after every step; histories "
+        "include USE SCHEMA/DATABASE, after which the database-relative reporters are also asked on cursors that outlived the "
+        "change and from a second connection; "
         "non-trivial = distinct swept state"
     )
     ctx.assumptions = ["the model encodes Snowflake's documented metadata semantics (CTAS/RENAME keep VARCHAR lengths, DROP forgets comments)"]
